@@ -103,7 +103,7 @@ func TestC19Driver(t *testing.T) {
 				s.Pick = append(s.Pick, rapid.IntRange(0, 20).Draw(t, "pick"))
 			}
 			s.Star = rapid.SampledFrom([]int{-1, -1, 0, 1, 2}).Draw(t, "star")
-			s.Bad = rapid.SampledFrom([]string{"", "", "", "", "table", "column", "not-select", "syntax"}).Draw(t, "bad")
+			s.Bad = rapid.SampledFrom([]string{"", "", "", "", "table", "column", "not-select", "syntax", "compound"}).Draw(t, "bad")
 			s.Plan = rapid.SampledFrom([]string{"all", "all", "close", "cancel", "cancel-async", "corrupt", "truncate", "prepared", "prepared-alter", "nested", "prepared-wal", "busy-first"}).Draw(t, "plan")
 			s.K = rapid.IntRange(0, 12).Draw(t, "k")
 			s.Yields = rapid.IntRange(0, 50).Draw(t, "yields")
@@ -115,6 +115,9 @@ func TestC19Driver(t *testing.T) {
 		Run: run,
 	})
 }
+
+// what follows a complete SELECT in the "compound" kind of bad query
+var compoundTails = []string{"; DELETE FROM t", "; DROP TABLE t", ";garbage", "; SELECT 1", ";LIMIT 1", " ; CREATE TABLE x (a)"}
 
 // starItem stands for the wildcard in the list of select items (a column may
 // be called "*" itself).
@@ -283,6 +286,10 @@ func run(r *vt.Run, t vt.TB, s spec) {
 		query = "CREATE TABLE x (a)"
 	case "syntax":
 		query = "SELECT FROM " + tableSQL
+	case "compound":
+		// more than the one SELECT: a second statement, or anything else,
+		// behind a semicolon
+		query += compoundTails[s.K%len(compoundTails)]
 	}
 	var beforeTruncation [][]interface{} // the table as it was while the file was whole
 	if s.Plan == "truncate" && s.Bad == "" {
@@ -334,7 +341,7 @@ func run(r *vt.Run, t vt.TB, s spec) {
 	// native result
 	var want [][]interface{}
 	var wantErr error
-	if s.Bad == "not-select" || s.Bad == "syntax" {
+	if s.Bad == "not-select" || s.Bad == "syntax" || s.Bad == "compound" {
 		wantErr = fmt.Errorf("not a select")
 	} else {
 		wantErr = nat.Select(nativeTable, func(row sqlittle.Row) { want = append(want, append([]interface{}{}, row...)) }, expanded...)
@@ -361,7 +368,7 @@ func run(r *vt.Run, t vt.TB, s spec) {
 				r.Harness(t, "reopen: %v", err)
 			}
 			defer nat.Close()
-			if s.Bad == "not-select" || s.Bad == "syntax" {
+			if s.Bad == "not-select" || s.Bad == "syntax" || s.Bad == "compound" {
 				return nil, nil, fmt.Errorf("not a select"), true
 			}
 			cols, err := nat.Columns(name)
